@@ -10,7 +10,7 @@ ASSUMPTIONS = ["documented preconditions: setters before the head is out, at mos
                "QTcpSocket::close flushes pending bytes (Qt; loopback scenario in thorough)"]
 TRUSTED = ["QJsonDocument::toJson is an oracle (tabulated by calling it directly)"]
 
-NAMES = [b"X-A", b"x-a", b"X-a", b"Set-Cookie", b"set-cookie", b"Content-Type", b"Content-Length", b"Location", b"Vary", b"\xc9tag", b"A", b"B"]
+NAMES = [b"Accept", b"Accept-Ranges", b"Set-Cookie2", b"X", b"X-A", b"x-a", b"X-a", b"Set-Cookie", b"set-cookie", b"Content-Type", b"Content-Length", b"Location", b"Vary", b"\xc9tag", b"A", b"B"]
 VALUES = [b"", b"1", b"a=1", b"b=2", b"x, y", b"text/plain", b"gzip", b"/p?q=1", b"a,b", b"\xff\xfe", b"v w", b"v  w", b"left\tright", b"Sun Nov  6 08:49:37 1994", b"a \t b"]
 REASONS = [None, None, b"", b"FINE", b"I AM A TEAPOT", b"with  spaces", b"caf\xc3\xa9 ferm\xc3\xa9", b"\xe6\x97\xa5\xe6\x9c\xac", b"<b>&amp;</b>"]
 CODES = [200, 201, 206, 301, 302, 400, 404, 418, 500, 502, 599, 100, 0, 999, 7, 99, 1000, 12345, -1]
